@@ -10,18 +10,18 @@ from checks import tsa_common as tc
 PID = 'C27'
 SCHEDULE_DEPENDENT = True
 RULE = ('2-4 simulated threads each execute 1-3 source-line statements on one attribute of one instance of a class built '
-        'with MetaThreadSafeAttributes: reads (x = o.a), plain assignments (o.a = k) and augmented assignments (o.a OP= k, '
+        'with MetaThreadSafeAttributes: reads (x = o.a), plain assignments (o.a = k) and augmented assignments (o.a OP= k, also o.a OP= o.a, '
         'OP from + - * // ** << >> | & ^ %); the scheduler (sticky walk / PCT) may switch at every line and every bytecode of '
-        '__get__/__set__ and of the client statements. Oracle: no statement raises; no deadlock (a thread parked for ever); '
+        '__get__/__set__ and of the client statements; second stratum: the attribute belongs to an ActiveObjectWithAttributes and the statements of one thread run inside the object\'s event handlers (its own thread) while client threads use the attribute from outside. Oracle: no statement raises; no deadlock (a thread parked for ever); '
         'serialisability: the final value and every value read are explained by some total order of the executed statements '
         'that respects each thread\'s program order (found by search over the <= 9 statements). Non-trivial = a context switch '
         'happened while a thread was between the read and the write of an augmented assignment; distinct = distinct '
         '(statement kinds per thread, interleaving of statement begin/end events) tuples.')
 ASSUMPTIONS = ['single instance, single attribute (independence of instances is C29)']
-PROBES = ['switch_inside_augmented_assignment']
+PROBES = ['switch_inside_augmented_assignment', 'statements_in_active_object_handler']
 PLAN = {
-  'quick': {'strata': {'threads': 6000}, 'wall_s': 300, 'chunk': 100, 'min_conclusive': 1000},
-  'thorough': {'strata': {'threads': 150000}, 'wall_s': 900, 'chunk': 250, 'min_conclusive': 10000},
+  'quick': {'strata': {'threads': 6000, 'active-object': 1500}, 'wall_s': 300, 'chunk': 100, 'min_conclusive': 1000},
+  'thorough': {'strata': {'threads': 150000, 'active-object': 40000}, 'wall_s': 900, 'chunk': 250, 'min_conclusive': 10000},
 }
 OPS = {'+=': operator.add, '-=': operator.sub, '*=': operator.mul, '//=': operator.floordiv, '**=': operator.pow,
        '<<=': operator.lshift, '>>=': operator.rshift, '|=': operator.or_, '&=': operator.and_, '^=': operator.xor,
@@ -34,6 +34,8 @@ def text(st):
     return 'x = o.a'
   if k == 'assign':
     return 'o.a = %d' % st['k']
+  if k == 'augself':
+    return 'o.a %s o.a' % st['op']      # the right-hand side reads the attribute again
   return 'o.a %s %d' % (st['op'], st['k'])
 
 
@@ -46,7 +48,10 @@ def generate(seed, stratum, tier):
   for t in range(nthreads):
     sts = []
     for _ in range(rng.randrange(1, per + 1)):
-      kind = rng.choices(['read', 'assign', 'aug'], weights=[2, 2, 5])[0]
+      kind = rng.choices(['read', 'assign', 'aug', 'augself'], weights=[2, 2, 5, 0.6])[0]
+      if kind == 'augself':
+        sts.append({'kind': 'augself', 'op': rng.choice(['+=', '+=', '*=', '-=', '|='])})
+        continue
       if kind == 'read':
         sts.append({'kind': 'read'})
       elif kind == 'assign':
@@ -69,8 +74,16 @@ def generate(seed, stratum, tier):
           k = rng.choice([1, 6, 12, 255])
         sts.append({'kind': 'aug', 'op': op, 'k': k})
     threads.append(sts)
-  return {'threads': threads,
-          'sched': common.draw_sched(rng, grans=('line', 'opcode'), weights=(1, 2), expected_steps=250, policies=('sticky', 'pct'))}
+  sc = {'threads': threads,
+        'sched': common.draw_sched(rng, grans=('line', 'opcode'), weights=(1, 2), expected_steps=250, policies=('sticky', 'pct'))}
+  if stratum == 'active-object':
+    # the documented use: the attribute belongs to an ActiveObjectWithAttributes; the statements of thread 0 are executed
+    # by the object's own thread (inside its event handlers, one per posted event), the others by client threads
+    sc['host'] = 'ao'
+    sc['spied'] = rng.random() < 0.5
+    sc['sched'] = common.draw_sched(rng, grans=('line', 'opcode'), weights=(2, 1), expected_steps=1500, policies=('sticky', 'pct', 'starve'),
+                                    victims=['consumer'])
+  return sc
 
 
 def shrink_candidates(sc):
@@ -84,6 +97,8 @@ def shrink_candidates(sc):
         yield dict(sc, threads=th[:i] + [s[:j] + s[j + 1:]] + th[i + 1:])
   for i, s in enumerate(th):
     for j, st in enumerate(s):
+      if st['kind'] == 'augself':
+        yield dict(sc, threads=th[:i] + [s[:j] + [{'kind': 'aug', 'op': '+=', 'k': 10 ** (i + 1)}] + s[j + 1:]] + th[i + 1:])
       if st['kind'] == 'aug' and st['op'] != '+=':
         yield dict(sc, threads=th[:i] + [s[:j] + [{'kind': 'aug', 'op': '+=', 'k': 10 ** (i + 1)}] + s[j + 1:]] + th[i + 1:])
   if sc['sched'].get('gran') == 'opcode':
@@ -119,14 +134,148 @@ def serialisable(threads, reads, final, done):
         stack.append((npos, st['k'], rpos))
       else:
         try:
-          nv = OPS[st['op']](val, st['k'])
+          nv = OPS[st['op']](val, val if st['kind'] == 'augself' else st['k'])
         except Exception:
           continue
         stack.append((npos, nv, rpos))
   return False
 
 
+def handler_source(sts):
+  """an event handler whose reactions are the statements of thread 0 (they must be source lines:
+  ThreadSafeAttribute classifies the line of its caller)"""
+  lines = ['def tsa_handler(chart, e):',
+           '  if e.signal == ENTRY or e.signal == INIT or e.signal == EXIT:',
+           '    return HANDLED',
+           '  sn = e.signal_name']
+  for i, st in enumerate(sts):
+    lines.append("  if sn == 'ST%d':" % i)
+    lines.append('    x = None')
+    lines.append('    ' + text(st).replace('o.a', 'chart.a'))
+    lines.append('    _m(%d, x)' % i)
+    lines.append('    return HANDLED')
+  lines += ['  chart.temp.fun = chart.top', '  return SUPER']
+  return '\n'.join(lines) + '\n'
+
+
+_handler_cache = {}
+
+
+def execute_ao(sc, sched):
+  import linecache
+  res = RunResult()
+  sim = common.new_sim(sc, sched, max_steps=300000)
+  ao = seams.mods['activeobject']
+  ev = seams.mods['event']
+  hsm = seams.mods['hsm']
+  n = len(sc['threads'])
+  reads = [[] for _ in range(n)]
+  done = [0] * n
+  errors = []
+  box = {}
+  src = handler_source(sc['threads'][0])
+  ent = _handler_cache.get(src)
+  if ent is None:
+    fname = '<tsa-handler-%d>' % (len(_handler_cache) + 1)
+    linecache.cache[fname] = (len(src), None, src.splitlines(True), fname)
+    ent = compile(src, fname, 'exec')
+    if len(_handler_cache) < 5000:
+      _handler_cache[src] = ent
+  codes = [None] + [tc.compile_script([text(st) for st in sts]) for sts in sc['threads'][1:]]
+
+  def _m0(i, x):
+    if sc['threads'][0][i]['kind'] == 'read':
+      reads[0].append(x)
+    done[0] = i + 1
+    sim.record('c27', 'stmt', 'end', (0, i))
+
+  def client(k):
+    o = box['o']
+    if k == 0:
+      # the object's own statements are triggered by events, in order
+      for i in range(len(sc['threads'][0])):
+        sim.record('c27', 'stmt', 'begin', (0, i))
+        o.post_fifo(ev.Event(signal='ST%d' % i))
+      return
+    ns = {'o': o, 'x': None}
+
+    def _m(i):
+      st = sc['threads'][k][i]
+      if st['kind'] == 'read':
+        reads[k].append(ns['x'])
+      done[k] = i + 1
+      sim.record('c27', 'stmt', 'end', (k, i))
+      if i + 1 < len(sc['threads'][k]):
+        sim.record('c27', 'stmt', 'begin', (k, i + 1))
+    ns['_m'] = _m
+    sim.record('c27', 'stmt', 'begin', (k, 0))
+    try:
+      exec(codes[k], ns)
+    except kernel.SimAbort:
+      raise
+    except BaseException as e:  # noqa
+      import traceback
+      errors.append((k, done[k], type(e).__name__, traceback.format_exc()[-600:]))
+
+  def main():
+    cls = type(ao.ActiveObjectWithAttributes)('TsaActiveObject', (ao.ActiveObjectWithAttributes,), {'_attributes': ['a']})
+    d = cls.__dict__.get('a')
+    for v in (vars(d).values() if d is not None and hasattr(d, '__dict__') else []):
+      if isinstance(v, prims.SimRLock):
+        v._label = 'rlock:TsaActiveObject.a'
+    box['cls'] = cls
+    o = cls(name='tsa')
+    box['o'] = o
+    rs, signals = ev.return_status, ev.signals
+    ns = {'ENTRY': signals.ENTRY_SIGNAL, 'INIT': signals.INIT_SIGNAL, 'EXIT': signals.EXIT_SIGNAL, 'HANDLED': rs.HANDLED,
+          'SUPER': rs.SUPER, '_m': _m0}
+    exec(ent, ns)
+    h = ns['tsa_handler']
+    seams.enable_events_for([h.__code__], opcode=True)
+    o.start_at(hsm.spy_on(h) if sc.get('spied') else h)
+    for k in range(n):
+      sim.spawn(client, (k,), role='client')
+
+  sim.spawn(main, role='main')
+  reason = sim.run()
+  o = box.get('o')
+  lock = tc.lock_of(box['cls'], 'a') if 'cls' in box else None
+  scripts = [['(in the object\'s handler) ' + text(s).replace('o.a', 'chart.a') for s in sc['threads'][0]]] + [[text(s) for s in t] for t in sc['threads'][1:]]
+  stuck = [t for t in sim.threads if t.state != kernel.DONE and (t.role in ('client', 'main') or (t.role == 'consumer' and not t.desc.startswith('get:')))]
+  if reason == 'budget':
+    res.outcome, res.reason = 'inconclusive', 'step budget'
+  elif errors:
+    k, i, typ, tb = errors[0]
+    st = sc['threads'][k][i] if i < len(sc['threads'][k]) else None
+    res.violate('statement-raised', {'exc': typ, 'kind': st['kind'] if st else None},
+                'thread %d statement %d `%s` raised %s\n%s\nscripts: %s' % (k, i, text(st) if st else '?', typ, tb, scripts))
+  elif sim.thread_errors:
+    name, typ, msg, tb = sim.thread_errors[0]
+    res.violate('statement-raised', {'exc': typ, 'kind': 'in-handler'}, '%s died: %s: %s\n%s\nscripts: %s' % (name, typ, msg, tb[-600:], scripts))
+  elif stuck:
+    res.violate('deadlock', {'at': stuck[0].desc.split(':')[0]},
+                'threads parked for ever: %s; lock owner %s\nscripts: %s' % (
+                  [(t.name, t.desc) for t in stuck], lock.owner_name() if isinstance(lock, prims.SimRLock) else '?', scripts))
+  elif done[0] < len(sc['threads'][0]):
+    res.outcome, res.reason = 'inconclusive', 'the object did not run all of its statements'
+  elif isinstance(lock, prims.SimRLock) and lock._owner is not None:
+    res.violate('deadlock', {'at': 'final-read'}, 'every statement has finished but %s still owns the attribute\'s lock: reading the final value would block for ever\nscripts: %s' % (lock.owner_name(), scripts))
+  else:
+    final = o.a
+    if not serialisable(sc['threads'], reads, final, done):
+      res.violate('not-serialisable', {'ops': sorted(set(st['kind'] for t in sc['threads'] for st in t)), 'host': 'active-object'},
+                  'final value %r and reads %s are not explained by any serial order of %s' % (final, reads, scripts))
+  sim.probe('statements_in_active_object_handler')
+  res.nontrivial.append(hash(('ao', tuple(tuple(kernel._stable(text(s).split()[1]) for s in t) for t in sc['threads']), sim.switch_signature())))
+  if res.outcome == 'violation' or sched.get('seed', 0) % 499 == 0:
+    res.sample = {'host': 'ActiveObjectWithAttributes', 'scripts': scripts, 'reads': reads}
+  common.finish(sim, res)
+  return res
+
+
 def execute(sc, sched):
+  if sc.get('host') == 'ao':
+    return execute_ao(sc, sched)
   res = RunResult()
   sim = common.new_sim(sc, sched, max_steps=150000)
   cls = tc.make_class(['a'])
@@ -176,6 +325,9 @@ def execute(sc, sched):
                 'threads parked for ever: %s; lock owner %s\nscripts: %s' % (
                   [(t.name, t.desc) for t in stuck], lock.owner_name() if isinstance(lock, prims.SimRLock) else '?',
                   [[text(s) for s in t] for t in sc['threads']]))
+  elif isinstance(lock, prims.SimRLock) and lock._owner is not None:
+    res.violate('deadlock', {'at': 'final-read'}, 'every thread has finished but %s still owns the attribute\'s lock: reading the final value would block for ever\nscripts: %s' % (
+      lock.owner_name(), [[text(s) for s in t] for t in sc['threads']]))
   else:
     final = o.a
     if not serialisable(sc['threads'], reads, final, done):
@@ -195,7 +347,7 @@ def execute(sc, sched):
   open_ = {}
   for b, k, i in order:
     if b:
-      if any(sc['threads'][kk][ii]['kind'] == 'aug' for kk, ii in open_.items() if kk != k):
+      if any(sc['threads'][kk][ii]['kind'] in ('aug', 'augself') for kk, ii in open_.items() if kk != k):
         hit = True
       open_[k] = i
     else:
